@@ -60,6 +60,8 @@ def enumerate_ops(t, compact=True):
                 ops.append(("set-idx-splice", ni, k, poss[0]))
                 ops.append(("append", ni, k))
                 ops.append(("set-list", ni, k))
+        if getattr(n, "_hash_raw_args", False) and "this" in n.args and not canon._is_expr(n.args["this"]):
+            ops.append(("leaf-reset", ni))   # clear and restore a leaf's value: the tree must compare as before
         if n.parent is not None:
             ops.append(("replace", ni, 1))
             ops.append(("replace-none", ni))
@@ -136,6 +138,13 @@ def apply_op(t, op):
         n.set(op[2], [fresh(0), fresh(1)], index=op[3])
     elif kind == "set-list":
         n.set(op[2], [fresh(0), fresh(3)])
+    elif kind == "leaf-reset":
+        v = n.args["this"]
+        before = canon.canon(t)
+        n.set("this", None)
+        n.set("this", v)
+        if canon.canon(t) != before:
+            raise AssertionError("harness: leaf-reset changed the canonical form")
     elif kind == "append":
         n.append(op[2], fresh(3))
     elif kind == "replace":
@@ -190,7 +199,7 @@ def final_equality(ctx, t, seed_sql, ops):
     try:
         c = t.copy()
         other = sqlglot.parse_one(seed_sql)
-        pairs = [("copy", c), ("seed", other)]
+        pairs = [("copy", c), ("seed", other), ("same-tree-args-inserted-in-reverse-order", canon.fresh_clone(t, reverse=True))]
         try:
             pairs.append(("reparsed", sqlglot.parse_one(t.sql())))
         except Exception:
